@@ -57,7 +57,8 @@ Feat(tv) == IF tv.g \in {"ptr", "iface"} THEN UNION {Feat(tv.a[i]) : i \in 1..Le
             ELSE IF tv.g = "struct" THEN
                  UNION {IF ~tv.f[i].exp THEN {}
                              ELSE (IF tv.f[i].emb /\ tv.f[i].v.g = "ptr" THEN {"embedded-pointer"} ELSE {}) \cup Feat(tv.f[i].v) : i \in 1..Len(tv.f)}
-            ELSE IF tv.g \in {"bool", "int", "uint8", "float", "string"} THEN (IF tv.name # "" THEN {"named-scalar"} ELSE {})
+            ELSE IF tv.g \in {"bool", "int", "uint8", "float", "string"} THEN
+                 (IF tv.name # "" THEN {"named-scalar"} ELSE {}) \cup (IF "big" \in DOMAIN tv THEN {"uint64-upper-half"} ELSE {})
             ELSE {}
 \* the as-implemented readings: a []byte is written as a string, which Recompose refuses; indexType panics on an embedded
 \* struct pointer; the encoders panic on a named scalar field of a non-addressable struct; (results that differ:) a nil
@@ -76,7 +77,9 @@ AsImpl6(tv) == IF tv.g \in {"ptr", "iface", "slice", "array", "map"} THEN [tv EX
                         ELSE IF tv.f[j].exp THEN [tv.f[j] EXCEPT !.v = AsImpl6(tv.f[j].v)] ELSE tv.f[j]]]
                ELSE tv
 Class(e) == LET F == Feat(e.orig) IN
+            \* (an unsigned member above MaxInt64 is parsed as a signed integer: value out of range)
             IF ~e.ok THEN (IF "embedded-pointer" \in F THEN "embedded-pointer" ELSE IF "bytes" \in F THEN "bytes-as-string"
+                           ELSE IF "uint64-upper-half" \in F THEN "uint64-upper-half"
                            ELSE IF "named-scalar" \in F THEN "named-scalar" ELSE IF "nil-pointer-element" \in F THEN "nil-pointer-element" ELSE "-")
             ELSE IF "embedded-pointer" \in F THEN "embedded-pointer"     \* sen.String yields "" for it (C15 F3), read back as nothing
             ELSE IF "named-scalar" \in F THEN "named-scalar"             \* likewise (C15 F11)
